@@ -24,10 +24,13 @@ Definition encode (c : Z) : list Z := sexp_utf8_encode_char (sexp_utf8_char_byte
 
 Definition byte_at (d : list Z) (i : nat) : Z := nth i d 0.
 
-(** sexp_string_utf8_ref (sexp.c:1252-1265): decode the sequence starting at byte [i];
-    the result word is a character immediate, unboxed with sexp_unbox_character *)
-Definition decode_at (d : list Z) (i : nat) : option Z :=
-  match sexp_string_utf8_ref (byte_at d i) (byte_at d (i + 1)) (byte_at d (i + 2)) (byte_at d (i + 3)) with
+(** sexp_string_utf8_ref (sexp.c:1260-1275): decode the sequence starting at byte [i];
+    the result word is a character immediate, unboxed with sexp_unbox_character.
+    [rem] = (sexp_sint_t)sexp_string_size(str) - sexp_unbox_string_cursor(i): the number of bytes from the
+    cursor to the end of the string (the translated function's input [p_rem]); a lead byte that announces
+    more bytes than that is an error ("truncated utf8 sequence"). *)
+Definition decode_at (d : list Z) (i : nat) (rem : Z) : option Z :=
+  match sexp_string_utf8_ref (byte_at d i) (byte_at d (i + 1)) (byte_at d (i + 2)) (byte_at d (i + 3)) rem with
   | RVal w => Some (verif_c12_unbox_character w)
   | RErr => None
   end.
@@ -48,6 +51,8 @@ Arguments Ok {A} a.
 Arguments Err {A} e.
 
 Definition store (h : heap) (s : str) : list Z := nth (sbytes s) h [].
+(** (sexp_sint_t)sexp_string_size(str) - sexp_unbox_string_cursor(i): bytes from cursor [i] to the end of [s] *)
+Definition remaining (s : str) (i : nat) : Z := Z.of_nat (ssize s) - Z.of_nat i.
 (** sexp_string_data(x) = sexp_bytes_data(sexp_string_bytes(x)) + sexp_string_offset(x) (sexp.h:1224) *)
 Definition sdata (h : heap) (s : str) : list Z := skipn (soff s) (store h s).
 
@@ -110,16 +115,22 @@ Definition string_ref (h : heap) (s : str) (index : Z) : res Z :=
   | Err e => Err e
   | Ok off =>
       if (ssize s <=? off)%nat then Err RangeErr
-      else match decode_at (sdata h s) off with Some c => Ok c | None => Err Utf8Err end
+      else match decode_at (sdata h s) off (remaining s off) with Some c => Ok c | None => Err Utf8Err end
   end.
 
-(** sexp_string_utf8_set (eval.c:2042-2077, with fixes/C12-string-set-shared-offset.patch):
+(** eval.c:2090-2092  old_len = sexp_utf8_initial_byte_count( *p );
+                      if (old_len > (int)sexp_string_size(str) - i) old_len = (int)sexp_string_size(str) - i;
+    [avail] = size - i (the callers guarantee i < size, so the natural-number subtraction is exact) *)
+Definition clamp_old_len (old_len avail : nat) : nat := if (avail <? old_len)%nat then avail else old_len.
+
+(** sexp_string_utf8_set (eval.c:2084-2119):
+    the replaced sequence is what the lead byte announces, but never more than the bytes left in the string;
     same width and not copy-on-write -> overwrite in place inside the shared store;
     otherwise allocate a new bytes object, copy prefix, copy suffix and terminator, make the
     string point at it with offset 0, then encode at q+i. *)
 Definition utf8_set (h : heap) (s : str) (i : nat) (c : Z) : heap * str :=
   let d := sdata h s in
-  let old_len := lead_count (byte_at d i) in
+  let old_len := clamp_old_len (lead_count (byte_at d i)) (ssize s - i) in
   let new_len := width c in
   let enc := sexp_utf8_encode_char (Z.of_nat new_len) c in
   if scow s || negb (old_len =? new_len)%nat then
